@@ -133,12 +133,29 @@ def _matching_paren(s: str, i: int) -> int:
     raise ValueError("unbalanced parentheses in SQL text")
 
 
+def _has_top_level_union(inner: str) -> bool:
+    depth = 0
+    i = 0
+    while i < len(inner):
+        ch = inner[i]
+        if ch == "(":
+            depth += 1
+        elif ch == ")":
+            depth -= 1
+        elif depth == 0 and inner.startswith("UNION", i) and (i == 0 or not inner[i - 1].isalnum()):
+            return True
+        i += 1
+    return False
+
+
 def sqlite_fix(s: str) -> str:
     """SQLite has no parenthesised compound-select *operand*: the library renders nested chains as
     ``(SELECT .. UNION ALL SELECT ..) UNION ALL ..`` (pinned by tests/test_sql_engine.py::test_chains;
-    PostgreSQL accepts it).  Rewrite exactly those operands - a parenthesised group that starts with
-    SELECT (or another such group) and is directly preceded or followed by UNION [ALL] - as
-    ``SELECT * FROM ( .. )``, which preserves multiset and order.  Nothing else is touched.  DESIGN 2.3."""
+    PostgreSQL accepts it).  Rewrite exactly those operands - a parenthesised group that is itself a
+    compound select (has a top-level UNION) and is directly preceded or followed by UNION [ALL] - as
+    ``SELECT * FROM ( .. )``, which preserves multiset and order.  Nothing else is touched; in
+    particular a parenthesised *simple* SELECT with ORDER BY/LIMIT used as a compound operand (which
+    the library avoids by nesting a subquery) stays as it is and SQLite rejects it.  DESIGN 2.3."""
     i = 0
     while True:
         i = s.find("(", i)
@@ -149,7 +166,10 @@ def sqlite_fix(s: str) -> str:
             j = _matching_paren(s, i)
             before = s[:i].rstrip()
             after = s[j + 1 :].lstrip()
-            if before.endswith("UNION ALL") or before.endswith("UNION") or after.startswith("UNION"):
+            inner = s[i + 1 : j]
+            if (before.endswith("UNION ALL") or before.endswith("UNION") or after.startswith("UNION")) and _has_top_level_union(
+                inner
+            ):
                 s = s[:i] + "SELECT * FROM (" + s[i + 1 :]
                 i += len("SELECT * FROM (")
                 continue
